@@ -34,6 +34,12 @@ func HandleSelect(deps ServerDeps, conn net.Conn, tag string, parts []string, st
 		return
 	}
 
+	// RFC 3501 section 6.3.1: a SELECT/EXAMINE first deselects the currently
+	// selected mailbox; if it then fails, no mailbox is selected.
+	state.SelectedMailboxID = 0
+	state.IsRoleMailbox = false
+	state.SelectedRoleMailboxID = 0
+
 	folder := strings.Trim(parts[2], "\"")
 	state.SelectedFolder = folder
 
